@@ -18,5 +18,6 @@ var props = map[string]propCfg{
 	"C19": {Assumptions: []string{"mirror types in harness/mirror follow the documented mapping rules (pogs/doc.go)", "schemas: aircraftlib only", "field bit ranges are read from the registered schema nodes"}},
 	"C20": {Assumptions: []string{"ref.ParseText implements the Cap'n Proto text value grammar as emitted for structs (strict about string literals)", "schemas: aircraftlib only", "the expected field values are read through the generated accessors"}},
 	"C16": {Assumptions: []string{"the version rule (top-level struct truncated / zero-extended, nested objects intact) is the one documented at Struct.CopyFrom; independence is asserted for operations documented or implemented as copies (cross-message assignment, list members, SetStruct, CopyFrom)"}},
+	"C10": {Race: true, Assumptions: []string{"the reference model encodes the documented life cycle of Client / ClientPromise / WeakClient", "programmer errors (double Fulfill, promise cycles, AddRef/WeakRef/Fulfill with a released client) are never generated", "concurrent schedules are sampled, not enumerated"}},
 	"C13": {Assumptions: []string{"ref.Pack/ref.Unpack (written from the packing spec, self-tested against the repository's TestPack vectors) are correct"}},
 }
